@@ -241,10 +241,10 @@ type seal struct {
 	label string
 }
 
-const ontModes = 13
+const ontModes = 16
 
 var ontModeNames = []string{"honest", "exact-third", "below-third", "dup-one", "dup-pad", "foreign-pad", "all-foreign", "bad-sig", "sig-missing",
-	"prev-set", "extra-sigs", "dup-above", "all-members"}
+	"prev-set", "extra-sigs", "dup-above", "all-members", "dup-silent", "silent-dup-extra", "dup-silent-partial"}
 
 func ceilThird(n int) int { return (n + 2) / 3 }
 
@@ -368,6 +368,40 @@ func (c *ontChain) makeSeal(hash []byte, cur, prev []*account.Account, mode, p, 
 	case 12:
 		for _, a := range rot(cur, n) {
 			add(a, sg(a))
+		}
+	case 13, 14, 15:
+		// a repeated signer combined with listed tracked members that did NOT sign: t distinct
+		// members are listed (so a count of distinct listed keys reaches the threshold) but only
+		// ns of them sign; the first signer is listed again once per missing signature and its
+		// signature repeated, so that there are t signatures for t+(t-ns) key slots.
+		// e.g. N=4: keys [A,A,B] sigs [sA,sA]; N=7, mode 15: keys [A,B,C,A] sigs [sA,sB,sA].
+		sel := rot(cur, t)
+		ns := 1
+		if m == 15 && t-1 > 1 {
+			ns = t - 1
+		}
+		keys := append([]*account.Account{}, sel...)
+		for i := 0; i < t-ns; i++ {
+			keys = append(keys, sel[0])
+		}
+		if m == 14 { // silent members first: [B,A,A]
+			for i, j := 0, len(keys)-1; i < j; i, j = i+1, j-1 {
+				keys[i], keys[j] = keys[j], keys[i]
+			}
+		} else if k := int(abs64(q)) % len(keys); k > 0 { // any order of the listing
+			keys = append(append([]*account.Account{}, keys[k:]...), keys[:k]...)
+		}
+		for _, a := range keys {
+			add(a, nil)
+		}
+		for i := 0; i < ns; i++ {
+			s.sigs = append(s.sigs, sg(sel[i]))
+		}
+		for i := 0; i < t-ns; i++ {
+			s.sigs = append(s.sigs, sg(sel[0]))
+		}
+		if m == 14 {
+			s.sigs = append(s.sigs, sg(c.out[0])) // plus a signature of nobody in the set
 		}
 	}
 	return s
